@@ -389,8 +389,49 @@ impl Oracle {
                     None => i.cands.last().map_or(0, |c| c.len()),
                 })
                 .sum();
-            let first_kept = (last + 1).saturating_sub(live + kept_rows.len());
-            self.vt.top.saturating_sub(first_kept).min(kept_rows.len())
+            // where the kept rows really are: the lowest place above the live rows where they stand on
+            // the reference terminal (padding rows may sit between them and the live rows); if they
+            // cannot be found (D22: padding was kept in their place) assume they end right above the
+            // live rows
+            let all = self.vt.rows();
+            let k = kept_rows.len();
+            let upper = (last + 1).saturating_sub(live); // kept rows end at or above this row
+            // match the kept rows bottom-up from the row above the live rows; blank rows (padding under
+            // bottom alignment) may sit between them
+            let found = {
+                let mut i = upper;
+                let mut ok = true;
+                for j in (0..k).rev() {
+                    loop {
+                        if i == 0 {
+                            ok = false;
+                            break;
+                        }
+                        i -= 1;
+                        let row = all.get(i).map(|x| x.as_str()).unwrap_or("");
+                        if row_eq(row, &kept_rows[j].0) {
+                            break;
+                        }
+                        if !row.is_empty() {
+                            ok = false;
+                            break;
+                        }
+                    }
+                    if !ok {
+                        break;
+                    }
+                }
+                if ok {
+                    Some(i)
+                } else {
+                    None
+                }
+            };
+            let first_kept = match found {
+                Some(p) if k > 0 && kept_rows.iter().any(|r| !r.0.is_empty()) => p,
+                _ => upper.saturating_sub(k),
+            };
+            self.vt.top.saturating_sub(first_kept).min(k)
         } else {
             self.top.saturating_sub(self.transcript.len()).min(kept_rows.len())
         };
